@@ -12,3 +12,5 @@ modflag() {
   sed "s#=> /repo#=> $VERIF_REPO#" "$VERIF_DIR/mc/go.mod" > "$1/go.mod"
   echo "-modfile=$1/go.mod"
 }
+# Evidence of a run against a scratch copy is kept apart from the evidence of /repo.
+if [ "$VERIF_REPO" != "/repo" ]; then export VERIF_EVIDENCE_DIR="${VERIF_EVIDENCE_DIR:-$VERIF_DIR/replays/seed-evidence}"; fi
